@@ -31,11 +31,18 @@ func (ex *Exec) intrinsic(fn *ssa.Function, args []Value) (Value, bool) {
 		ex.stubsUsed[name]++
 		switch fn.Name() {
 		case "verifNondetByte":
-			return ex.nondet(8), true
+			return ex.nondetH(8), true
 		case "verifNondetInt":
-			return ex.nondet(64), true
+			return ex.nondetH(64), true
 		case "verifNondetBool":
-			return ex.nondet(BoolSort), true
+			return ex.nondetH(BoolSort), true
+		case "verifBound":
+			k := ex.describe(args[0])
+			v, ok := ex.bounds[k]
+			if !ok {
+				panic(unsupported("verifBound: no bound named " + k))
+			}
+			return ex.ts.Const(64, uint64(v)), true
 		case "verifAssume":
 			c := args[0].(*Term)
 			if !c.IsConst() {
@@ -69,7 +76,7 @@ func (ex *Exec) intrinsic(fn *ssa.Function, args []Value) (Value, bool) {
 			return ex.ts.Const(64, uint64(ex.liveThreads())), true
 		case "verifNondetRange":
 			lo, hi := args[0].(*Term), args[1].(*Term)
-			v := ex.nondet(64)
+			v := ex.nondetH(64)
 			c := ex.ts.And(ex.ts.Bin(OpSLe, lo, v), ex.ts.Bin(OpSLe, v, hi))
 			if !ex.feasible(c) {
 				panic(pathEnd{"assume", "empty range"})
